@@ -149,3 +149,86 @@ def crash_replay(rec):
         return 10
     print("recovery succeeded from every scenario: not reproduced")
     return 0
+
+
+WCHILD = r'''
+import os, sys, io, torch
+from nessai.flowmodel.base import FlowModel
+d, where = sys.argv[1], sys.argv[2]
+fm = object.__new__(FlowModel)
+fm.model = torch.nn.Linear(3, 3)
+with torch.no_grad():
+    fm.model.weight.fill_(2.0); fm.model.bias.fill_(2.0)      # "NEW"
+real_save = torch.save
+if where == "mid-write":
+    def torn(obj, path, *a, **k):
+        buf = io.BytesIO(); real_save(obj, buf)
+        with open(path, "wb") as fh:
+            fh.write(buf.getvalue()[: len(buf.getvalue()) // 2]); fh.flush()
+        os._exit(77)
+    torch.save = torn
+else:                                   # killed right after the move
+    def gone(obj, path, *a, **k):
+        os._exit(77)
+    torch.save = gone
+FlowModel.save_weights(fm, os.path.join(d, "model.pt"))
+os._exit(0)
+'''
+
+
+def weights_recovery_replay(rec):
+    """kill the real FlowModel.save_weights (a) in the middle of torch.save,
+    (b) between the move to .old and the write; then run the real
+    FlowProposal.resume weights logic on what is left on disk."""
+    import torch
+    from nessai.flowmodel.base import FlowModel
+    from nessai.proposal.flowproposal import FlowProposal
+    bad = []
+    for where in ("mid-write", "after-move"):
+        d = tempfile.mkdtemp(prefix="pyvc-c11w-")
+        try:
+            f = os.path.join(d, "model.pt")
+            prev = torch.nn.Linear(3, 3)
+            with torch.no_grad():
+                prev.weight.fill_(1.0)
+                prev.bias.fill_(1.0)                      # "PREV"
+            torch.save(prev.state_dict(), f)
+            p = subprocess.run(
+                [sys.executable, "-c", WCHILD, d, where],
+                capture_output=True, text=True, timeout=300,
+                env=dict(os.environ, PYTHONPATH=os.environ.get(
+                    "NESSAI_REPO", "/repo")))
+            if p.returncode != 77:
+                bad.append(f"[{where}] child did not reach the kill point: "
+                           f"{p.stderr[-200:]}")
+                continue
+            prop = object.__new__(FlowProposal)
+            prop.mask = None
+            prop.weights_file = f            # what the checkpoint names
+            prop.initialise = lambda resumed=False: None
+            fm = object.__new__(FlowModel)
+            fm.model = torch.nn.Linear(3, 3)
+            fm.initialised = True
+            fm.weights_file = None
+            prop.flow = fm
+            try:
+                FlowProposal.resume(prop, object(), {})
+            except Exception as ex:        # noqa: BLE001
+                bad.append(f"[{where}] FlowProposal.resume raised "
+                           f"{type(ex).__name__}: {str(ex)[:100]}; files: "
+                           f"{sorted(os.listdir(d))}")
+                continue
+            w = float(fm.model.weight.detach().flatten()[0])
+            if w not in (1.0, 2.0):
+                bad.append(f"[{where}] no saved weights were installed "
+                           f"(weight[0]={w:.3f}, expected the previous 1.0 "
+                           f"or the new 2.0); files: "
+                           f"{sorted(os.listdir(d))}")
+        finally:
+            shutil.rmtree(d, ignore_errors=True)
+    if bad:
+        for b in bad:
+            print("REPRODUCED:", b)
+        return 10
+    print("weights recovered in both crash scenarios: not reproduced")
+    return 0
